@@ -11,3 +11,13 @@ pub fn validate_instruction_stream_x(code: &[u8]) -> Result<(), BytecodeError> {
     std::mem::forget(types);
     r
 }
+
+/// validate_const_payload for one constant of type `type_id` over a caller-built type table (empty string table)
+pub fn validate_const_payload_x(types: &TypeTable, type_id: u32, payload: Vec<u8>) -> Result<(), BytecodeError> {
+    let strings = StringTable { entries: Vec::new() };
+    let entry = ConstEntry { type_id, payload };
+    let r = validate_const_payload(&strings, types, &entry);
+    std::mem::forget(strings);
+    std::mem::forget(entry);
+    r
+}
